@@ -71,8 +71,15 @@ def check(run, ctx):
             run.finding(G3, "_generate_config_content", f"stale-replace:{p}", f"{p} is substituted but the template does not contain it", gc.loc)
     presets = None
     for n in ast.walk(gc.node):
-        if isinstance(n, ast.Assign) and ast.unparse(n.targets[0]) == "presets":
-            presets = repo.fold(gc.module, n.value)
+        if isinstance(n, ast.Assign) and isinstance(n.value, ast.Dict):   # the preset table: a dict of dicts keyed by preset name, whatever it is called
+            v_ = repo.fold(gc.module, n.value)
+            if isinstance(v_, dict) and v_ and all(isinstance(x, dict) for x in v_.values()):
+                presets = v_
+    if presets is None:   # hoisted to a module constant
+        for nm_, ex_ in gc.module.assigns.items():
+            v_ = repo.fold(gc.module, ex_)
+            if isinstance(v_, dict) and v_ and all(isinstance(x, dict) for x in v_.values()) and any(k in v_ for k in ("strict", "standard", "lenient")):
+                presets = v_
     run.require(isinstance(presets, dict), "preset table not foldable")
     choices = []
     for f in (repo.func("src.cli.config.init_config"),):
